@@ -23,7 +23,13 @@ def gen_program(rng):
     n = 0
     for i in range(rng.randint(2, 6)):
         k = rng.random()
-        if k < 0.35:
+        if k < 0.1:
+            while True:
+                ms = gen_str(rng)
+                if '"' not in ms:
+                    break
+            lines.append('print! ""%s""' % erg_str(ms))   # a multi-line literal
+        elif k < 0.35:
             lines.append('print! %s' % erg_str(gen_str(rng)))
         elif k < 0.6:
             lines.append('s%d = %s' % (n, erg_str(gen_str(rng))))
@@ -38,6 +44,37 @@ def gen_program(rng):
             lines.append('if! %s == %s, do!:' % (erg_str(gen_str(rng)), erg_str(gen_str(rng))))
             lines.append('    print! "same"')
     return lines
+
+
+SPECIALS = ['\0', '\\', '"', '\n', '\r', '\x01', '\x1f', "'", '{', '}', '%', '\x7f', '\u2028']
+FOLLOWERS = list('0123456789') + ['n', 'x', 'u', 'U', 'N', 'a', 'b', 'f', '"', '\\', '\n', '{', "'", '']
+
+
+def probe_programs():
+    """deterministic probes: every special character followed by every follower (an escape must not change meaning because of what
+    comes next: `\\0` + digit is an octal escape, `\\x` + one hex digit is an error, ...), in one-line and in multi-line literals"""
+    progs = []
+    for sp in SPECIALS:
+        lines = []
+        for fo in FOLLOWERS:
+            s = 'a' + sp + fo + 'z'
+            if ambiguous_quotes(s):
+                continue
+            lines.append('print! %s' % erg_str(s))
+            lines.append('print! len(%s)' % erg_str(s))
+        progs.append(lines)
+    # multi-line literals (escapes are resolved by the lexer there too); no quotation mark inside
+    ml = []
+    for sp in SPECIALS:
+        if sp == '"':
+            continue
+        for fo in ('0', 'n', 'x', '\\', 't', ''):
+            s = 'a' + sp + fo + 'z'
+            ml.append('print! ""%s""' % erg_str(s))
+            ml.append('print! len(""%s"")' % erg_str(s))
+    for k in range(0, len(ml), 24):
+        progs.append(ml[k:k + 24])
+    return progs
 
 
 def first_finding(r):
@@ -56,8 +93,9 @@ def explore(run, n_programs=None):
     findings = []
     declined = compared = 0
     env = dict(os.environ, PYTHONIOENCODING='utf-8')
-    for m in range(n_programs):
-        lines = gen_program(rng)
+    probes = probe_programs()
+    for m in range(n_programs + len(probes)):
+        lines = probes[m - n_programs] if m >= n_programs else gen_program(rng)
         path = os.path.join(work, 'p%d.er' % m)
         with open(path, 'w', encoding='utf-8') as f:
             f.write('\n'.join(lines) + '\n')
@@ -80,6 +118,6 @@ def explore(run, n_programs=None):
             findings.append({"key": what[0], "how": "generated program through the real `erg transpile`, run by python3, against `erg run`",
                              "input": '\n'.join(lines)[:1200], "real_result": what[1][:600], "oracle": "`erg run` of the same program (compiled bytecode)",
                              "verdict": what[1][:300], "replay_cmd": "%s transpile %s && python3 %s ; %s run %s" % (erg, path, out, erg, path)})
-    run.extra["bounded_differential_run_on_python_target"] = {"programs": n_programs, "declined_by_the_transpiler_or_checker": declined, "compared": compared,
-                                                             "rule": "programs of 2-6 statements: print! of a string literal / a bound string and its length / a concatenation / a list of strings, an if! on string equality; string contents over %d characters (quote, apostrophe, backslash, LF, CR, NUL, other control characters, DEL, braces, %%, digits after escapes, U+0080..U+10FFFF)" % len(CHARS)}
+    run.extra["bounded_differential_run_on_python_target"] = {"programs": n_programs, "deterministic_probe_programs": len(probes), "declined_by_the_transpiler_or_checker": declined, "compared": compared,
+                                                             "rule": "programs of 2-6 statements: print! of a string literal / a bound string and its length / a concatenation / a list of strings, an if! on string equality; print! of a multi-line literal; string contents over %d characters (quote, apostrophe, backslash, LF, CR, NUL, other control characters, DEL, braces, %%, digits after escapes, U+0080..U+10FFFF); plus deterministic probes: each of %d special characters followed by each of %d followers, in one-line and multi-line literals" % (len(CHARS), len(SPECIALS), len(FOLLOWERS))}
     return {"findings": findings, "found": bool(findings), "note": None if findings else "%d programs compared (%d declined): same output and exit status" % (compared, declined)}
